@@ -43,17 +43,21 @@ Me == "M1"                                   \* my primary overlay address; my n
 Overlay6 == {"M6", "S6", "R6", "T6"}               \* IPv6 overlay addresses
 OFam(a) == IF a \in Overlay6 THEN 6 ELSE 4
 RangePeers == {"P1", "P3"}                   \* overlay addresses inside remote_allow_ranges 10.128.1.0/24
+\* a second remote_allow_ranges entry, 10.128.0.0/24, holds the lighthouses (and the C35 hosts) and denies other
+\* addresses: the sender of a message and the peer it is about fall under DIFFERENT range lists
+LhRangePeers == {"M1", "L0", "L1", "L2", "S1", "S2", "T1", "O1", "U1", "R1", "R2"}
 
 \* underlay addresses by class
 InOverlaySet    == {4, 5, 41}                \* 10.128.7.7  fd00:80::77  10.128.7.5      inside my overlay networks
 DeniedGlobalSet == {6, 8, 42}                \* 203.0.113.9 2001:db8:dead::8 203.0.113.5 remote_allow_list: false
-DeniedPeerSet   == {7, 43}                   \* 198.51.100.9 198.51.100.5                remote_allow_ranges[10.128.1.0/24]: false
-UFam(x) == IF x \in {3, 5, 8} THEN 6 ELSE 4  \* everything else: 192.0.2.x (and 2001:db8:1::3), allowed
+DeniedPeerSet   == {7, 43, 44}               \* 198.51.100.9 198.51.100.5 2001:db8:beef::9  remote_allow_ranges[10.128.1.0/24]: false
+DeniedLhSet     == {45, 46}                  \* 192.0.2.200 2001:db8:cafe::9            remote_allow_ranges[10.128.0.0/24]: false
+UFam(x) == IF x \in {3, 5, 8, 44, 46} THEN 6 ELSE 4  \* everything else: 192.0.2.x (and 2001:db8:1::3), allowed
 PreferredSet == {2, 5}                       \* preferred_ranges 192.0.2.2/32, fd00:80::/64
 
 InOverlay(x)    == x \in InOverlaySet
 DeniedGlobal(x) == x \in DeniedGlobalSet
-DeniedFor(p, x) == x \in DeniedPeerSet /\ p \in RangePeers
+DeniedFor(p, x) == (x \in DeniedPeerSet /\ p \in RangePeers) \/ (x \in DeniedLhSet /\ p \in LhRangePeers)
 Allow(p, x)     == ~DeniedGlobal(x) /\ ~DeniedFor(p, x)                \* RemoteAllowList.Allow(p, x)
 AllowAll(ps, x) == \A p \in ps : Allow(p, x)                           \* RemoteAllowList.AllowAll
 ShouldAdd(p, x) == Allow(p, x) /\ ~InOverlay(x)                        \* LightHouse.unlockedShouldAddV4/V6
@@ -293,15 +297,17 @@ Alphabet ==
 -----------------------------------------------------------------------------
 (* C36 vectors *)
 C36Lhs == {"L1", "L2"}
-C36Statics == << <<"L1", <<31>>>>, <<"L2", <<32>>>>, <<"P2", <<33, 4, 6, 7, 3>>>>, <<"P3", <<34, 7, 5, 8>>>> >>
+C36Statics == << <<"L1", <<31>>>>, <<"L2", <<32>>>>, <<"P2", <<33, 4, 6, 7, 3, 44>>>>, <<"P3", <<34, 7, 5, 8, 44, 46>>>> >>
 C36Node(am) == WithStatics(Node0(am, C36Lhs), C36Statics)
 CalcAddrs == <<40, 41, 42, 43>>              \* lighthouse.calculated_remotes for 10.128.1.0/24 applied to P1 = 10.128.1.5
 
 \* what a source offers: an allowed address together with one address of the class
 Offer(c) == CASE c = "ok"  -> <<1, 2>>   [] c = "ov4" -> <<1, 4>>   [] c = "ov6" -> <<3, 5>>
               [] c = "dg"  -> <<6, 1, 8>> [] c = "dp"  -> <<7, 2>>   [] c = "bad" -> <<9, 1>>
+              [] c = "dp6" -> <<44, 3, 7>>              \* denied for the peer's range only, IPv6 (and IPv4)
+              [] c = "dl"  -> <<45, 46, 1>>             \* denied for the SENDER's (lighthouse's) range only: usable for the peer
               [] c = "many" -> <<11, 12, 13, 14, 15, 16, 17, 18, 19, 20, 21, 22>>
-Classes == <<"ok", "ov4", "ov6", "dg", "dp", "bad", "many">>
+Classes == <<"ok", "ov4", "ov6", "dg", "dp", "dp6", "dl", "bad", "many">>
 V4s(s) == SelectSeq(s, LAMBDA x : UFam(x) = 4)
 V6s(s) == SelectSeq(s, LAMBDA x : UFam(x) = 6)
 
@@ -337,7 +343,7 @@ SrcEv(s, p, c) == CASE s = "reply1" -> <<"reply", "L1", p, Offer(c)>>
                     [] s = "reply2" -> <<"reply", "L2", p, Offer(c)>>
                     [] s = "update" -> <<"update", p, Offer(c)>>
                     [] s = "punch"  -> <<"punch", "L1", p, Offer(c)>>
-                    [] s = "learn"  -> <<"learn", p, Offer(c)[Len(Offer(c))]>>
+                    [] s = "learn"  -> <<"learn", p, IF c = "dg" THEN 8 ELSE Offer(c)[1]>>
                     [] s = "roam"   -> <<"roam", p, Offer(c)[1]>>
                     [] s = "dns"    -> <<"dns", p, Offer(c)>>
                     [] s = "calc"   -> <<"calc", p>>
